@@ -13,12 +13,12 @@ one() {
   # patch_current.diff = the same change ported onto the current tree (written when a later fix: commit touched the same lines)
   pf=/verif/seeded/$id/patch.diff; [ -f /verif/seeded/$id/patch_current.diff ] && pf=/verif/seeded/$id/patch_current.diff
   if ! (cd $S && patch -p1 -s --no-backup-if-mismatch < $pf >/dev/null 2>&1); then echo "$id $prop PATCH-DOES-NOT-APPLY"; rm -rf $S; return; fi
-  out=$(VERIF_REPO=$S ./check $prop 2>&1); rc=$?
+  O=$(mktemp -d /tmp/seedoutXXXX); out=$(VERIF_OUT=$O VERIF_REPO=$S ./check $prop 2>&1); rc=$?
   lane=$(echo "$out" | grep -c "^VIOLATION")
   nf=$(echo "$out" | grep -c "no-failing-input-found")
   und=$(echo "$out" | grep -c "^UNDECIDED")
   echo "$id $prop rc=$rc violations=$lane without-input=$nf undecided-notes=$und"
-  rm -rf $S
+  rm -rf $S $O
 }
 export -f one
 printf "%s\n" $ids | xargs -P 3 -I{} bash -c 'one {}'
